@@ -4684,7 +4684,12 @@ fn evaluate_scalar_func(
                             return None;
                         }
                         let n = f_arr.value(i);
-                        let dec = decimals.and_then(|d| get_int_value(d, i)).unwrap_or(0) as usize;
+                        // 0..=340 places: an f64 has no more significant decimals, and
+                        // a precision past u16::MAX makes format! panic
+                        let dec = decimals
+                            .and_then(|d| get_int_value(d, i))
+                            .unwrap_or(0)
+                            .clamp(0, 340) as usize;
                         Some(format_with_separators(n, dec))
                     })
                     .collect();
@@ -4698,7 +4703,12 @@ fn evaluate_scalar_func(
                             return None;
                         }
                         let n = i_arr.value(i) as f64;
-                        let dec = decimals.and_then(|d| get_int_value(d, i)).unwrap_or(0) as usize;
+                        // 0..=340 places: an f64 has no more significant decimals, and
+                        // a precision past u16::MAX makes format! panic
+                        let dec = decimals
+                            .and_then(|d| get_int_value(d, i))
+                            .unwrap_or(0)
+                            .clamp(0, 340) as usize;
                         Some(format_with_separators(n, dec))
                     })
                     .collect();
